@@ -479,6 +479,7 @@ def canonical_calls(func_node: ast.AST, self_aliases: bool = True):
                 out.append((norm(S(st.value, env)), cond, st.lineno))
             elif isinstance(st, ast.If):
                 test_s = S(st.test, env)
+                out.append(("test " + norm(test_s), cond, st.lineno))
                 t = B.parse(test_s)
                 e1 = walk(st.body, env, B.mk_and([cond, t]))
                 e2 = walk(st.orelse, env, B.mk_and([cond, B.mk_not(t)]))
